@@ -530,7 +530,7 @@ func (g *inputGen) checkExpect(c *corrOut, prop, what string, chunks [][]byte, w
 			c.scope += " C11"
 		case strings.Contains(what, "completely filled read"):
 			c.scope += " C15"
-		case strings.Contains(what, "event paste"):
+		case strings.Contains(what, "event paste"), strings.Contains(what, "several pastes"):
 			c.scope += " C10"
 		case strings.Contains(what, "event "):
 			c.scope += " C08"
@@ -693,6 +693,45 @@ func streamReader(c *corrOut, g *inputGen, r *rng, n int, thorough bool) {
 			}
 			g.checkExpect(c, "C10", "paste delivered in pieces after the start marker", chunks, expectedOf(evs, kr))
 		}
+	}
+	// C10: SEVERAL pastes in one run, each delivered in pieces of its own (the reader holds an event back
+	// more than once in its life: what it kept from the first time must not leak into the second)
+	reps := 12
+	if thorough {
+		reps = 120
+	}
+	for rep := 0; rep < reps; rep++ {
+		k := r.rangeIn(2, 4)
+		var evs []event
+		var chunks [][]byte
+		for j := 0; j < k; j++ {
+			p := g.evPaste(g.randPayload(r, []int{1, 7, 40, 200, 300}[r.intn(5)]))
+			evs = append(evs, p)
+			// the start marker alone or with some payload; then the rest in 1..3 reads of its own
+			cut := 6 + r.intn(len(p.bytes)-6)
+			if r.chance(1, 3) {
+				cut = 6
+			}
+			if cut > 250 {
+				cut = 250
+			}
+			chunks = append(chunks, p.bytes[:cut])
+			rest := p.bytes[cut:]
+			for len(rest) > 0 {
+				n := r.rangeIn(1, 255)
+				if n > len(rest) {
+					n = len(rest)
+				}
+				chunks = append(chunks, rest[:n])
+				rest = rest[n:]
+			}
+			if r.chance(1, 2) {
+				e := g.evRunes([]rune{rune('a' + j)})
+				evs = append(evs, e)
+				chunks = append(chunks, e.bytes)
+			}
+		}
+		g.checkExpect(c, "C10", "several pastes in one run, each delivered in pieces after its start marker", chunks, expectedOf(evs, kr))
 	}
 	// C10: a very large paste (implementation-only oracle; the model side of it is the unbounded theorem
 	// C10_chunked_paste): still exactly one paste message, whatever the payload length
